@@ -38,6 +38,7 @@ def cases(tier, seed):
             yield dict(model=m, focus=sub, changes=ch)
             if spec['names']:
                 yield dict(model=m, focus=sub, changes=ch, by_name=True)
+            yield dict(model=m, focus=sub, changes=ch, evaluate_first=True)
 
 
 def deps(spec, focus):
@@ -106,6 +107,13 @@ def oracle(c):
         return False, f'extracted model contains the focus and all it depends on ({sorted(need)})', f'missing {missing}'
     ev_full, ev_sub = xlcalculator.Evaluator(model), xlcalculator.Evaluator(sub)
     rev = {t.replace('$', ''): n for n, t in spec['names'].items() if ':' not in t}
+    if c.get('evaluate_first'):
+        for f in c['focus']:                        # a history: evaluate, change the inputs, evaluate again
+            for ev_ in (ev_full, ev_sub):
+                try:
+                    ev_.evaluate(f)
+                except Exception:      # noqa
+                    pass
     for addr, v in c['changes']:
         if addr in need:
             # the same change in both models - addressed through the cell's defined name where it has one and the
@@ -124,6 +132,13 @@ def oracle(c):
             b = ('raise', type(ex).__name__)
         if a != b:
             return False, f'{f}: {a} as in the full model', b
+    # reading through a cell's defined name gives what reading through its address gives - in both models
+    for n, addr in ((n, t.replace('$', '')) for n, t in spec['names'].items() if ':' not in t):
+        for label, ev_, mod in (('full', ev_full, model), ('extracted', ev_sub, sub)):
+            if n in mod.defined_names and addr in mod.cells:
+                g1, g2 = observe(ev_.get_cell_value(n)), observe(ev_.get_cell_value(addr))
+                if g1 != g2:
+                    return False, f'{label} model: get_cell_value({n!r}) == get_cell_value({addr!r}) == {g2}', g1
     return True, 'same values', 'ok'
 
 
@@ -149,7 +164,7 @@ def cases_random(tier, seed):
             k = rng.randrange(1, min(3, len(items)) + 1)
             focus = rng.sample(items, k)
             ch = [[a, rng.choice([11, -2.5, 0, 4])] for a in m['inputs'] if rng.random() < 0.6]
-            yield dict(mseed=ms, focus=focus, changes=ch, by_name=rng.random() < 0.5)
+            yield dict(mseed=ms, focus=focus, changes=ch, by_name=rng.random() < 0.5, evaluate_first=rng.random() < 0.5)
 
 
 def oracle_random(c):
@@ -173,6 +188,13 @@ def oracle_random(c):
         return False, f'extracted model contains the focus and all it depends on ({sorted(need)})', f'missing {missing}'
     ev_full, ev_sub = xlcalculator.Evaluator(model), xlcalculator.Evaluator(sub)
     rev = {t.replace('$', '').replace("'", ''): n for n, t in m['names'].items() if ':' not in t}
+    if c.get('evaluate_first'):
+        for f in c['focus']:
+            for ev_ in (ev_full, ev_sub):
+                try:
+                    ev_.evaluate(f)
+                except Exception:      # noqa
+                    pass
     for addr, v in c['changes']:
         if addr in need:
             how = rev[addr] if (c.get('by_name') and addr in rev and rev[addr] in sub.defined_names) else addr
